@@ -347,6 +347,13 @@ pub fn gen(rng: &mut Rng, _index: u64) -> String {
         let (dx, dy) = (rng.range(-mag, mag) as f64, rng.range(-mag, mag) as f64);
         let g2 = xform(&g, &|c| Coord { x: c.x * k + dx, y: c.y * k + dy });
         format!("C06.meta {} {} {} {} {}", e, proto::num(dx), proto::num(dy), proto::geom(&g), proto::geom(&g2))
+    } else if rng.chance(1, 150) {
+        // a line string with more coordinates than any block size (a unit staircase: every length is 1)
+        let n = 2049 + rng.below(300) as i64;
+        let (x0, y0) = (rng.range(-50, 50), rng.range(-50, 50));
+        let v: Vec<Coord<f64>> = (0..n).map(|i| Coord { x: (x0 + (i + 1) / 2) as f64, y: (y0 + i / 2) as f64 }).collect();
+        let g = if rng.chance(1, 3) { Geometry::MultiLineString(MultiLineString(vec![LineString(v)])) } else { Geometry::LineString(LineString(v)) };
+        format!("C06.cen {}", proto::geom(&g))
     } else {
         let s = Sys::pick(rng);
         let g = gen_geom(&s, rng, 3);
